@@ -46,7 +46,10 @@ def parse_spec(path):
         elif kind == '@loop':
             secs['loops'][arg.strip()] = text
         elif kind == '@never_loop':
-            secs['never_loop'] = text
+            if arg.strip().startswith('ret:'):
+                secs['loops'][arg.strip()] = text      # k-th `return Ok('l: loop { .. })` (R4r)
+            else:
+                secs['never_loop'] = text
         elif kind == '@to_string':
             if text.strip():
                 secs['to_string'].append(text.strip('\n'))
